@@ -292,7 +292,16 @@ func genCompare(t *rapid.T) Case {
 	default:
 		b = genCmpInt(t, "b")
 	}
-	c.Args = []Arg{mkArg(t, 0, itoa(a), false), mkArg(t, 1, itoa(b), false)}
+	// log fields are often zero-padded ("007"): rare reads integers in base 10 everywhere, so the padded
+	// spelling denotes the same number (also when both operands come from the line)
+	pad := func(v int64, label string) string {
+		s := itoa(v)
+		if v >= 0 && rapid.IntRange(0, 3).Draw(t, label) == 0 {
+			s = strings.Repeat("0", rapid.IntRange(1, 3).Draw(t, label+"-n")) + s
+		}
+		return s
+	}
+	c.Args = []Arg{mkArg(t, 0, pad(a, "pad-a"), false), mkArg(t, 1, pad(b, "pad-b"), false)}
 	return c
 }
 
@@ -300,15 +309,22 @@ func checkCompare(c Case) error {
 	if len(c.Args) != 2 {
 		return fmt.Errorf("harness: comparison needs 2 arguments")
 	}
-	if bad, clear := firstNonNumeric(c.vals(), isCanonInt); bad >= 0 {
+	vals := c.vals()
+	for i := range vals {
+		if u, ok := unpad(vals[i]); ok {
+			vals[i] = u
+			c.Obs.Label(true, "zero-padded-operand")
+		}
+	}
+	if bad, clear := firstNonNumeric(vals, isCanonInt); bad >= 0 {
 		if !clear {
 			return nil // not generated
 		}
 		c.Obs.Label(true, "non-numeric")
 		return checkNonNumeric(c, bad)
 	}
-	a, _ := canonInt(c.arg(0))
-	b, _ := canonInt(c.arg(1))
+	a, _ := canonInt(vals[0])
+	b, _ := canonInt(vals[1])
 	if a > max53 || a < -max53 || b > max53 || b < -max53 {
 		return nil // not generated
 	}
@@ -343,7 +359,7 @@ func classifyCompare(c Case) (bool, []string) {
 
 var specCompare = pbt.Spec[Case]{
 	Property: prop, Name: "compare",
-	Rule:     "lt/gt/lte/gte on two canonical integers with |v|<=2^53 (equal, adjacent +-1/+-2, independent), via constant/group/key; truthiness of the result must equal the integer relation; 1 in 12 non-numeric. Every case non-trivial; labels: equal, adjacent, mixed-sign",
+	Rule:     "lt/gt/lte/gte on two integers with |v|<=2^53 (equal, adjacent +-1/+-2, independent; 1 in 4 non-negative operands zero-padded like a log field), via constant/group/key; truthiness of the result must equal the integer relation; 1 in 12 non-numeric. Every case non-trivial; labels: equal, adjacent, mixed-sign",
 	Budget:   pbt.Budget{Quick: 12000, Thorough: 96000},
 	Gen:      genCompare,
 	Check:    checkCompare,
